@@ -64,12 +64,74 @@ class Pattern(HostObj):
         return VList([Match(m) for m in self.p.finditer(s)])
 
     def a_split(self, I, s, *a):
+        if isinstance(s, Rope):
+            return rope_split(I, self.p.pattern, s)
         _conc(s)
         return VList(self.p.split(s, *a))
 
     def a_sub(self, I, repl, s, *a):
         _conc(s, repl)
         return self.p.sub(repl, s, *a)
+
+
+def rope_split(I, pattern, rope):
+    """re.split of a symbolic text on a pattern that is a set of single separator characters, none of which can occur in a
+    fixed-point rendering (digits, '.', '-'): the split happens inside the concrete pieces only"""
+    import sre_parse
+    from .builtins_ import FMT_ALPHABET
+    seps = set()
+    try:
+        parsed = sre_parse.parse(pattern)
+    except Exception:
+        raise Unsupported('regular expression on symbolic text')
+
+    def chars(items):
+        for op, av in items:
+            name = str(op)
+            if name == 'LITERAL':
+                seps.add(chr(av))
+            elif name == 'BRANCH':
+                for alt in av[1]:
+                    chars(alt)
+            elif name == 'IN':
+                for op2, av2 in av:
+                    if str(op2) == 'LITERAL':
+                        seps.add(chr(av2))
+                    elif str(op2) == 'CATEGORY' and str(av2) == 'CATEGORY_SPACE':
+                        seps.update(' \t\n\r\f\v')
+                    else:
+                        raise Unsupported('regular expression on symbolic text')
+            else:
+                raise Unsupported('regular expression on symbolic text')
+    chars(parsed)
+    if any(c in FMT_ALPHABET for c in seps) or any(not isinstance(p, str) and p.kind not in ('f', 'exact') for p in rope.parts):
+        raise Unsupported('regular expression on symbolic text')
+    out = [[]]
+    for p in rope.parts:
+        if isinstance(p, str):
+            cur = ''
+            for ch in p:
+                if ch in seps:
+                    if cur:
+                        out[-1].append(cur)
+                    cur = ''
+                    out.append([])
+                else:
+                    cur += ch
+            if cur:
+                out[-1].append(cur)
+        else:
+            out[-1].append(p)
+    res = []
+    for o in out:
+        r = Rope(o)
+        if not r.parts:
+            res.append('')
+        elif all(isinstance(x, str) for x in r.parts):
+            res.append(''.join(r.parts))
+        else:
+            res.append(r)
+    return VList(res)
 
 
 def make(I):
